@@ -124,3 +124,696 @@ Proof.
   - intros p [].
   - intros j [].
 Qed.
+
+(* ====================================================================================
+   The full statement: the scheduler never hangs, on Ok every parent was started, and
+   the pool invariant  started \ completed = running  holds at every state. *)
+From Coq Require Import Permutation.
+From CTM Require Import Base.ListX.
+
+Lemma mem_in x l : mem x l = true <-> In x l.
+Proof.
+  unfold mem. rewrite existsb_exists. split.
+  - intros (y & Hy & E). apply Nat.eqb_eq in E. subst. exact Hy.
+  - intros H. exists x. split; [exact H | apply Nat.eqb_refl].
+Qed.
+Lemma mem_not_in x l : mem x l = false <-> ~ In x l.
+Proof. rewrite <- mem_in. destruct (mem x l); split; congruence. Qed.
+
+Lemma NoDup_map_filter {A B} (f : A -> B) (g : A -> bool) l :
+  NoDup (map f l) -> NoDup (map f (filter g l)).
+Proof.
+  induction l as [|a l IH]; cbn; intros H; [constructor|].
+  inversion H; subst. destruct (g a); cbn; [|apply IH; assumption].
+  constructor; [|apply IH; assumption].
+  intros Hin. apply H2. apply in_map_iff in Hin. destruct Hin as (b & Hb & Hin).
+  apply filter_In in Hin. rewrite <- Hb. apply in_map. tauto.
+Qed.
+
+Lemma NoDup_snoc_x {A} (l : list A) x : NoDup l -> ~ In x l -> NoDup (l ++ [x]).
+Proof.
+  intros Hl Hx. apply NoDup_app; [exact Hl | constructor; [intros []|constructor] |].
+  intros y Hy [<-|[]]. contradiction.
+Qed.
+
+(* the pool invariant (DESIGN section 7, C04): the parents that were started and are not
+   yet recorded as completed are exactly the keys of process_dict -- as sets AND with
+   multiplicity 1 (all three collections are duplicate-free); completed is part of
+   started; no job carries a start time in the future *)
+Definition pool_inv (s : sel_state) : Prop :=
+  NoDup (ss_started s) /\ NoDup (ss_completed s) /\ NoDup (map fst (ss_running s)) /\
+  (forall p, In p (map fst (ss_running s)) <-> In p (ss_started s) /\ ~ In p (ss_completed s)) /\
+  (forall p, In p (ss_completed s) -> In p (ss_started s)) /\
+  (forall j, In j (ss_running s) -> (snd j <= ss_clock s)%nat).
+
+Definition sel_init : sel_state :=
+  {| ss_started := []; ss_completed := []; ss_running := []; ss_clock := 0 |}.
+
+Lemma pool_inv_init : pool_inv sel_init.
+Proof.
+  unfold pool_inv, sel_init; cbn. repeat split; try constructor; try tauto; intros; tauto.
+Qed.
+
+(* one poll (the body of the inner while loop) *)
+Definition poll_state (s : sel_state) (r' : list job) : sel_state :=
+  {| ss_started := ss_started s;
+     ss_completed := ss_completed s ++
+        filter (fun p => negb (mem p (map fst r'))) (map fst (ss_running s));
+     ss_running := r'; ss_clock := S (ss_clock s) |}.
+
+Lemma poll_inv (W : world) s :
+  pool_inv s -> pool_inv (poll_state s (filter (unfinished W (ss_clock s)) (ss_running s))).
+Proof.
+  intros (Hs & Hc & Hr & Hd & Hsub & Hck).
+  set (r' := filter (unfinished W (ss_clock s)) (ss_running s)).
+  assert (Hr'sub : forall p, In p (map fst r') -> In p (map fst (ss_running s))).
+  { intros p Hp. apply in_map_iff in Hp. destruct Hp as (j & <- & Hj).
+    apply filter_In in Hj. apply in_map. tauto. }
+  assert (Hgone : forall p, In p (filter (fun p => negb (mem p (map fst r'))) (map fst (ss_running s))) <->
+                            In p (map fst (ss_running s)) /\ ~ In p (map fst r')).
+  { intros p. rewrite filter_In, negb_true_iff, mem_not_in. tauto. }
+  unfold pool_inv, poll_state; cbn [ss_started ss_completed ss_running ss_clock].
+  split; [exact Hs|]. split.
+  { apply NoDup_app; [exact Hc | apply NoDup_filter; exact Hr |].
+    intros p Hp Hg. apply Hgone in Hg. destruct Hg as [Hg _]. apply Hd in Hg. tauto. }
+  split; [apply NoDup_map_filter; exact Hr|]. split.
+  { intros p. rewrite in_app_iff, Hgone. split.
+    - intros Hp. pose proof (Hr'sub p Hp) as Hp'. apply Hd in Hp'. tauto.
+    - intros [Hps Hn]. assert (Hrun : In p (map fst (ss_running s))) by (apply Hd; tauto).
+      destruct (in_dec Nat.eq_dec p (map fst r')) as [Hi|Hi]; [exact Hi | exfalso; tauto]. }
+  split.
+  { intros p Hp. apply in_app_or in Hp. destruct Hp as [Hp|Hp]; [apply Hsub; exact Hp|].
+    apply Hgone in Hp. destruct Hp as [Hp _]. apply Hd in Hp. tauto. }
+  intros j Hj. apply filter_In in Hj. destruct Hj as [Hj _]. specialize (Hck j Hj). lia.
+Qed.
+
+(* starting the chosen parent (the `if have_chosen_parent:` block) *)
+Definition start_state (leafless : list nat) (s : sel_state) (p : nat) : sel_state :=
+  if mem p leafless
+  then {| ss_started := ss_started s ++ [p]; ss_completed := ss_completed s ++ [p];
+          ss_running := ss_running s; ss_clock := ss_clock s |}
+  else {| ss_started := ss_started s ++ [p]; ss_completed := ss_completed s;
+          ss_running := ss_running s ++ [(p, ss_clock s)]; ss_clock := ss_clock s |}.
+
+Lemma start_inv leafless s p : pool_inv s -> ~ In p (ss_started s) -> pool_inv (start_state leafless s p).
+Proof.
+  intros (Hs & Hc & Hr & Hd & Hsub & Hck) Hp.
+  assert (Hpc : ~ In p (ss_completed s)) by (intros H; apply Hp, Hsub, H).
+  assert (Hpr : ~ In p (map fst (ss_running s))) by (intros H; apply Hd in H; tauto).
+  unfold start_state. destruct (mem p leafless); unfold pool_inv;
+    cbn [ss_started ss_completed ss_running ss_clock].
+  - split; [apply NoDup_snoc_x; assumption|]. split; [apply NoDup_snoc_x; assumption|].
+    split; [exact Hr|]. split.
+    + intros q. rewrite !in_app_iff. cbn [In]. rewrite Hd. split.
+      * intros [Hq Hn]. split; [left; exact Hq|]. intros [H|[H|[]]]; [tauto | subst; tauto].
+      * intros [[Hq|[Hq|[]]] Hn]; [tauto | subst; exfalso; apply Hn; right; left; reflexivity].
+    + split; [|exact Hck]. intros q Hq. apply in_app_or in Hq. apply in_or_app.
+      destruct Hq as [Hq|Hq]; [left; apply Hsub; exact Hq | right; exact Hq].
+  - split; [apply NoDup_snoc_x; assumption|]. split; [exact Hc|].
+    split; [rewrite map_app; cbn; apply NoDup_snoc_x; assumption|]. split.
+    + intros q. rewrite map_app, !in_app_iff. cbn [In map fst]. rewrite Hd. split.
+      * intros [[Hq Hn]|[Hq|[]]]; [tauto | subst; tauto].
+      * intros [[Hq|[Hq|[]]] Hn]; [tauto | right; left; exact Hq].
+    + split.
+      * intros q Hq. apply in_or_app. left. apply Hsub. exact Hq.
+      * intros j Hj. apply in_app_or in Hj. destruct Hj as [Hj|[<-|[]]]; [apply Hck; exact Hj | cbn; lia].
+Qed.
+
+Lemma filter_length_lt_or_eq {A} (f : A -> bool) l :
+  length (filter f l) = length l -> filter f l = l.
+Proof.
+  induction l as [|a l IH]; cbn; [reflexivity|].
+  destruct (f a); cbn; intros H.
+  - f_equal. apply IH. lia.
+  - pose proof (filter_length_le f l). lia.
+Qed.
+
+Section Sched.
+  Variable W : world.
+
+  (* the inner while loop, when it ends: invariant kept, nothing started, the dict only
+     shrinks, it shrank strictly if the loop was entered without a chosen parent *)
+  Lemma sel_wait_inr fuel n : forall have s s',
+    pool_inv s -> sel_wait fuel W n have s = inr s' ->
+    pool_inv s' /\ ss_started s' = ss_started s /\
+    (length (ss_running s') <= length (ss_running s))%nat /\
+    (have = false -> (length (ss_running s') < length (ss_running s))%nat) /\
+    (length (ss_running s') < n)%nat /\
+    (forall j, In j (ss_running s') -> In j (ss_running s)).
+  Proof.
+    induction fuel as [|f IH]; intros have s s' Hi; cbn [sel_wait].
+    - destruct ((length (ss_running s) <? n)%nat && have)%bool eqn:E; [|discriminate].
+      intros H; inversion H; subst s'. apply andb_true_iff in E. destruct E as [E1 E2].
+      apply Nat.ltb_lt in E1. split; [exact Hi|]. split; [reflexivity|]. split; [lia|].
+      split; [intros ->; discriminate|]. split; [exact E1 | auto].
+    - destruct ((length (ss_running s) <? n)%nat && have)%bool eqn:E.
+      + intros H; inversion H; subst s'. apply andb_true_iff in E. destruct E as [E1 E2].
+        apply Nat.ltb_lt in E1. split; [exact Hi|]. split; [reflexivity|]. split; [lia|].
+        split; [intros ->; discriminate|]. split; [exact E1 | auto].
+      + pose proof (winnow_dict_spec W (ss_clock s) (ss_running s)) as Hs.
+        destruct (winnow_dict W (ss_clock s) (ss_running s)) as [r'|w c]; [|discriminate].
+        destruct Hs as [Hr _]. intros H.
+        change (sel_wait f W n (have || negb (length r' =? length (ss_running s))%nat)
+                         (poll_state s r') = inr s') in H.
+        apply IH in H; [|subst r'; apply poll_inv; exact Hi].
+        destruct H as (Hi' & Hst & Hle & Hlt & Hn & Hsub).
+        cbn [poll_state ss_started ss_running] in Hst, Hle, Hlt, Hsub.
+        pose proof (filter_length_le (unfinished W (ss_clock s)) (ss_running s)) as Hfl.
+        rewrite <- Hr in Hfl.
+        split; [exact Hi'|]. split; [exact Hst|]. split; [lia|]. split; [|split; [exact Hn|]].
+        * intros ->. cbn [orb] in Hlt.
+          destruct (length r' =? length (ss_running s))%nat eqn:El; cbn [negb] in Hlt.
+          -- apply Nat.eqb_eq in El. specialize (Hlt eq_refl). lia.
+          -- apply Nat.eqb_neq in El. lia.
+        * intros j Hj. apply Hsub in Hj. subst r'. apply filter_In in Hj. tauto.
+  Qed.
+
+  (* ... and it always ends: fuel = f + 1 polls suffice when every running worker terminates
+     within f polls from now, provided a parent was chosen or the dict is not empty *)
+  Lemma sel_wait_no_hang n : (1 <= n)%nat -> forall f have s,
+    (forall j, In j (ss_running s) -> (snd j + dur W (fst j) <= ss_clock s + f)%nat) ->
+    (have = true \/ ss_running s <> []) ->
+    sel_wait (S f) W n have s <> inl PHang.
+  Proof.
+    intros Hn. induction f as [|f IH]; intros have s Hdur Hne.
+    - cbn [sel_wait].
+      destruct ((length (ss_running s) <? n)%nat && have)%bool eqn:E; [discriminate|].
+      pose proof (winnow_dict_spec W (ss_clock s) (ss_running s)) as Hs.
+      destruct (winnow_dict W (ss_clock s) (ss_running s)) as [r'|w c]; [|discriminate].
+      destruct Hs as [Hr _].
+      assert (r' = []) as ->.
+      { subst r'. apply filter_none. intros j Hj. specialize (Hdur j Hj).
+        unfold unfinished, finished. apply negb_false_iff, Nat.leb_le. lia. }
+      cbn [length ss_running].
+      assert (Hh : (have || negb (0 =? length (ss_running s))%nat)%bool = true).
+      { destruct Hne as [->|Hne]; [reflexivity|]. destruct (ss_running s); [contradiction|].
+        cbn. apply orb_true_r. }
+      rewrite Hh. destruct n; [lia|]. cbn. discriminate.
+    - cbn [sel_wait].
+      destruct ((length (ss_running s) <? n)%nat && have)%bool eqn:E; [discriminate|].
+      pose proof (winnow_dict_spec W (ss_clock s) (ss_running s)) as Hs.
+      destruct (winnow_dict W (ss_clock s) (ss_running s)) as [r'|w c]; [|discriminate].
+      destruct Hs as [Hr _]. apply IH; cbn [ss_running ss_clock].
+      + intros j Hj. subst r'. apply filter_In in Hj. destruct Hj as [Hj _].
+        specialize (Hdur j Hj). lia.
+      + destruct Hne as [->|Hne]; [left; reflexivity|].
+        destruct (length r' =? length (ss_running s))%nat eqn:El.
+        * right. apply Nat.eqb_eq in El. intros ->. destruct (ss_running s); [contradiction|discriminate].
+        * left. apply orb_true_r.
+  Qed.
+End Sched.
+
+Lemma sel_wait_never_ok W fuel n : forall have s, sel_wait fuel W n have s <> inl POk.
+Proof.
+  induction fuel as [|f IH]; intros have s; cbn [sel_wait];
+    destruct ((length (ss_running s) <? n)%nat && have)%bool; try discriminate.
+  destruct (winnow_dict W (ss_clock s) (ss_running s)); [apply IH | discriminate].
+Qed.
+
+Section Loop.
+  Variable W : world.
+  Variable n : nat.
+  Variables beh sml leafless : list nat.
+  Let parents := beh ++ sml.
+  Let np := (length beh + length sml)%nat.
+  Hypothesis Hnd : NoDup parents.
+
+  Definition loop_inv (s : sel_state) : Prop :=
+    pool_inv s /\ (forall p, In p (ss_started s) -> In p parents).
+
+  (* the body of the outer loop up to the inner while loop *)
+  Definition sel_step (s : sel_state) : bool * sel_state :=
+    match choose_parent beh sml s with
+    | None => (false, s)
+    | Some p => (true, start_state leafless s p)
+    end.
+
+  Definition drain (fuel : nat) (s : sel_state) : pres * sel_state :=
+    match sel_wait fuel W 1 true s with
+    | inl r => (r, s)
+    | inr s' => (POk, s')
+    end.
+
+  Lemma sel_loop_done outer fuel s : (np <=? length (ss_started s))%nat = true ->
+    sel_loop outer fuel W n np beh sml leafless s = drain fuel s.
+  Proof. intros E. destruct outer; cbn [sel_loop]; rewrite E; reflexivity. Qed.
+
+  Lemma sel_loop_step o fuel s : (np <=? length (ss_started s))%nat = false ->
+    sel_loop (S o) fuel W n np beh sml leafless s =
+    match sel_wait fuel W n (fst (sel_step s)) (snd (sel_step s)) with
+    | inl r => (r, snd (sel_step s))
+    | inr s' => sel_loop o fuel W n np beh sml leafless s'
+    end.
+  Proof.
+    intros E. cbn [sel_loop]. rewrite E. unfold sel_step, start_state.
+    destruct (choose_parent beh sml s) as [p|]; [destruct (mem p leafless)|]; reflexivity.
+  Qed.
+
+  Lemma sel_loop_out_of_fuel fuel s : (np <=? length (ss_started s))%nat = false ->
+    sel_loop O fuel W n np beh sml leafless s = (PHang, s).
+  Proof. intros E. cbn [sel_loop]. rewrite E. reflexivity. Qed.
+
+  Lemma choose_some s p : choose_parent beh sml s = Some p -> In p parents /\ ~ In p (ss_started s).
+  Proof.
+    unfold choose_parent, first_unstarted, parents. intros H.
+    assert (Hf : forall l, find (fun p => negb (mem p (ss_started s))) l = Some p ->
+                           In p l /\ ~ In p (ss_started s)).
+    { intros l Hl. apply find_some in Hl. destruct Hl as [H1 H2].
+      apply negb_true_iff, mem_not_in in H2. tauto. }
+    destruct (if behemoth_running beh s then None
+              else find (fun p => negb (mem p (ss_started s))) beh) as [q|] eqn:E.
+    - inversion H; subst q. destruct (behemoth_running beh s); [discriminate|].
+      apply Hf in E. rewrite in_app_iff. tauto.
+    - apply Hf in H. rewrite in_app_iff. tauto.
+  Qed.
+
+  (* no spin with nothing running: while a parent is still to be started, "no parent can
+     be chosen" means a behemoth is started and not completed, hence (pool invariant)
+     in process_dict *)
+  Lemma choose_none s : loop_inv s -> (length (ss_started s) < np)%nat ->
+    choose_parent beh sml s = None -> ss_running s <> [].
+  Proof.
+    intros [(Hs & Hc & Hr & Hd & Hsub & Hck) Hincl] Hlt Hch.
+    destruct (find (fun p => negb (mem p (ss_started s))) parents) as [q|] eqn:Ef.
+    - apply find_some in Ef. destruct Ef as [Hq Hqn].
+      unfold choose_parent, first_unstarted in Hch.
+      assert (Hno : forall l, In q l -> find (fun p => negb (mem p (ss_started s))) l <> None).
+      { intros l Hl Hf. pose proof (find_none _ _ Hf q Hl) as H. cbn in H. congruence. }
+      unfold parents in Hq. apply in_app_or in Hq. destruct Hq as [Hqb|Hqs].
+      + destruct (behemoth_running beh s) eqn:Eb.
+        * unfold behemoth_running in Eb. apply existsb_exists in Eb. destruct Eb as (b & Hb & Hbb).
+          apply andb_true_iff in Hbb. destruct Hbb as [H1 H2].
+          apply mem_in in H1. apply negb_true_iff, mem_not_in in H2.
+          assert (Hin : In b (map fst (ss_running s))) by (apply Hd; tauto).
+          intros E. rewrite E in Hin. destruct Hin.
+        * exfalso. apply (Hno beh Hqb).
+          destruct (find (fun p => negb (mem p (ss_started s))) beh); [discriminate | reflexivity].
+      + exfalso. apply (Hno sml Hqs).
+        destruct (if behemoth_running beh s then None
+                  else find (fun p => negb (mem p (ss_started s))) beh); [discriminate | exact Hch].
+    - exfalso.
+      assert (Hall : incl parents (ss_started s)).
+      { intros p Hp. pose proof (find_none _ _ Ef p Hp) as H. cbn in H.
+        apply negb_false_iff, mem_in in H. exact H. }
+      pose proof (NoDup_incl_length Hnd Hall) as Hlen.
+      unfold parents in Hlen. rewrite app_length in Hlen. unfold np in Hlt. lia.
+  Qed.
+
+  Lemma sel_step_inv s : loop_inv s -> loop_inv (snd (sel_step s)).
+  Proof.
+    intros [Hi Hincl]. unfold sel_step.
+    destruct (choose_parent beh sml s) as [p|] eqn:Ec; cbn [snd]; [|split; assumption].
+    apply choose_some in Ec. destruct Ec as [Hp Hns]. split; [apply start_inv; assumption|].
+    unfold start_state. destruct (mem p leafless); cbn [ss_started]; intros q Hq;
+      apply in_app_or in Hq; destruct Hq as [Hq|[<-|[]]]; auto.
+  Qed.
+
+  Lemma drain_facts fuel s : loop_inv s ->
+    let r := drain fuel s in
+    loop_inv (snd r) /\ ss_started (snd r) = ss_started s /\
+    (fst r = POk -> ss_running (snd r) = []).
+  Proof.
+    intros Hi. unfold drain. destruct (sel_wait fuel W 1 true s) as [r|s'] eqn:Ew; cbn [fst snd].
+    - split; [exact Hi|]. split; [reflexivity|]. intros ->. exfalso. exact (sel_wait_never_ok _ _ _ _ _ Ew).
+    - destruct Hi as [Hi Hincl]. apply sel_wait_inr in Ew; [|exact Hi].
+      destruct Ew as (Hi' & Hst & _ & _ & Hlen & _). split; [split; [exact Hi'|]|split; [exact Hst|]].
+      + rewrite Hst. exact Hincl.
+      + intros _. destruct (ss_running s'); [reflexivity | cbn in Hlen; lia].
+  Qed.
+
+  (* (A) the invariant at every state the loop can hand back -- for EVERY number of outer
+     iterations and EVERY inner fuel, i.e. at every head of the outer loop and after every
+     start; a clean verdict comes with everything started and an empty process_dict *)
+  Lemma sel_loop_inv_all fuel : forall outer s, loop_inv s ->
+    let r := sel_loop outer fuel W n np beh sml leafless s in
+    loop_inv (snd r) /\
+    (fst r = POk -> (np <= length (ss_started (snd r)))%nat /\ ss_running (snd r) = []).
+  Proof.
+    induction outer as [|o IH]; intros s Hi;
+      destruct (np <=? length (ss_started s))%nat eqn:En.
+    - rewrite sel_loop_done by exact En. destruct (drain_facts fuel s Hi) as (H1 & H2 & H3).
+      split; [exact H1|]. intros Hok. split; [rewrite H2; apply Nat.leb_le; exact En | auto].
+    - rewrite sel_loop_out_of_fuel by exact En. cbn. split; [exact Hi | discriminate].
+    - rewrite sel_loop_done by exact En. destruct (drain_facts fuel s Hi) as (H1 & H2 & H3).
+      split; [exact H1|]. intros Hok. split; [rewrite H2; apply Nat.leb_le; exact En | auto].
+    - rewrite sel_loop_step by exact En. pose proof (sel_step_inv s Hi) as Hi1.
+      destruct (sel_wait fuel W n (fst (sel_step s)) (snd (sel_step s))) as [r|s'] eqn:Ew.
+      + cbn [fst snd]. split; [exact Hi1|]. intros ->. exfalso. exact (sel_wait_never_ok _ _ _ _ _ Ew).
+      + apply IH. destruct Hi1 as [Hp1 Hincl1]. apply sel_wait_inr in Ew; [|exact Hp1].
+        destruct Ew as (Hi' & Hst & _). split; [exact Hi'|]. rewrite Hst. exact Hincl1.
+  Qed.
+
+  (* (B) termination *)
+  Hypothesis Hn : (1 <= n)%nat.
+  Variable m : nat.
+  Hypothesis Hm : forall p, In p parents -> (dur W p <= m)%nat.
+
+  Definition mu (s : sel_state) : nat := (2 * (np - length (ss_started s)) + length (ss_running s))%nat.
+
+  Lemma dur_bound s : loop_inv s ->
+    forall j, In j (ss_running s) -> (snd j + dur W (fst j) <= ss_clock s + m)%nat.
+  Proof.
+    intros [(Hs & Hc & Hr & Hd & Hsub & Hck) Hincl] j Hj.
+    specialize (Hck j Hj).
+    assert (Hp : In (fst j) parents).
+    { apply Hincl. apply (proj1 (Hd (fst j))). apply in_map. exact Hj. }
+    specialize (Hm _ Hp). lia.
+  Qed.
+
+  Lemma sel_step_progress s : loop_inv s -> (length (ss_started s) < np)%nat ->
+    (fst (sel_step s) = true \/ ss_running (snd (sel_step s)) <> []) /\
+    (fst (sel_step s) = true -> (mu (snd (sel_step s)) < mu s)%nat) /\
+    (fst (sel_step s) = false -> snd (sel_step s) = s).
+  Proof.
+    intros Hi Hlt. unfold sel_step.
+    destruct (choose_parent beh sml s) as [p|] eqn:Ec; cbn [fst snd].
+    - split; [left; reflexivity|]. split; [|discriminate]. intros _.
+      unfold mu, start_state. destruct (mem p leafless); cbn [ss_started ss_running];
+        rewrite ?app_length; cbn [length]; lia.
+    - split; [right; apply choose_none; assumption|]. split; [discriminate | reflexivity].
+  Qed.
+
+  Lemma sel_loop_no_hang : forall outer s, loop_inv s -> (mu s < outer)%nat ->
+    fst (sel_loop outer (S m) W n np beh sml leafless s) <> PHang.
+  Proof.
+    induction outer as [|o IH]; intros s Hi Hmu;
+      destruct (np <=? length (ss_started s))%nat eqn:En.
+    - lia.
+    - lia.
+    - rewrite sel_loop_done by exact En. unfold drain.
+      destruct (sel_wait (S m) W 1 true s) as [r|s'] eqn:Ew; cbn [fst]; [|discriminate].
+      intros ->. revert Ew. apply sel_wait_no_hang; [lia | apply dur_bound; exact Hi | left; reflexivity].
+    - rewrite sel_loop_step by exact En. apply Nat.leb_gt in En.
+      pose proof (sel_step_inv s Hi) as Hi1.
+      destruct (sel_step_progress s Hi En) as (Hne & Hdec & Hsame).
+      destruct (sel_wait (S m) W n (fst (sel_step s)) (snd (sel_step s))) as [r|s'] eqn:Ew.
+      + cbn [fst]. intros ->. revert Ew.
+        apply sel_wait_no_hang; [exact Hn | apply dur_bound; exact Hi1 | exact Hne].
+      + destruct Hi1 as [Hp1 Hincl1]. apply sel_wait_inr in Ew; [|exact Hp1].
+        destruct Ew as (Hi' & Hst & Hle & Hlt & _). apply IH.
+        * split; [exact Hi'|]. rewrite Hst. exact Hincl1.
+        * assert (Hmu' : (mu s' < mu s)%nat); [|lia].
+          destruct (fst (sel_step s)) eqn:Ef.
+          -- specialize (Hdec eq_refl). unfold mu in *. rewrite Hst. lia.
+          -- specialize (Hlt eq_refl). rewrite (Hsame eq_refl) in *. unfold mu. rewrite Hst. lia.
+  Qed.
+End Loop.
+
+(* a raise of the inner loop names a key of process_dict *)
+Lemma sel_wait_raise W fuel n : forall have s w c,
+  sel_wait fuel W n have s = inl (PRaised w c) ->
+  exists j, In j (ss_running s) /\ fst j = w /\ c = code W w /\ c <> 0%Z.
+Proof.
+  induction fuel as [|f IH]; intros have s w c; cbn [sel_wait];
+    destruct ((length (ss_running s) <? n)%nat && have)%bool; try discriminate.
+  pose proof (winnow_dict_spec W (ss_clock s) (ss_running s)) as Hs.
+  destruct (winnow_dict W (ss_clock s) (ss_running s)) as [r'|w1 c1].
+  - destruct Hs as [Hr _]. intros H. apply IH in H. cbn [ss_running] in H.
+    destruct H as (j & Hj & H). exists j. split; [|exact H]. subst r'. apply filter_In in Hj. tauto.
+  - intros H; inversion H; subst. destruct Hs as (j & Hj & H1 & _ & H3 & H4). exists j. auto.
+Qed.
+
+Section Raise.
+  Variable W : world.
+  Variable n : nat.
+  Variables beh sml leafless : list nat.
+
+  (* only parents with leaf pairs get a process *)
+  Definition procs_have_leaves (s : sel_state) : Prop :=
+    forall j, In j (ss_running s) -> mem (fst j) leafless = false.
+
+  Lemma sel_step_leaves s : procs_have_leaves s -> procs_have_leaves (snd (sel_step beh sml leafless s)).
+  Proof.
+    intros H. unfold sel_step. destruct (choose_parent beh sml s) as [p|]; cbn [snd]; [|exact H].
+    unfold start_state. destruct (mem p leafless) eqn:E; [exact H|].
+    intros j Hj. cbn [ss_running] in Hj. apply in_app_or in Hj.
+    destruct Hj as [Hj|[<-|[]]]; [apply H; exact Hj | exact E].
+  Qed.
+
+  Lemma sel_loop_raise_leaves fuel : forall outer s w c,
+    loop_inv beh sml s -> procs_have_leaves s ->
+    fst (sel_loop outer fuel W n (length beh + length sml) beh sml leafless s) = PRaised w c ->
+    mem w leafless = false.
+  Proof.
+    induction outer as [|o IH]; intros s w c Hi Hl;
+      destruct (length beh + length sml <=? length (ss_started s))%nat eqn:En.
+    - rewrite sel_loop_done by exact En. unfold drain.
+      destruct (sel_wait fuel W 1 true s) as [r|s'] eqn:Ew; cbn [fst]; [|discriminate].
+      intros ->. apply sel_wait_raise in Ew. destruct Ew as (j & Hj & <- & _). apply Hl. exact Hj.
+    - rewrite sel_loop_out_of_fuel by exact En. discriminate.
+    - rewrite sel_loop_done by exact En. unfold drain.
+      destruct (sel_wait fuel W 1 true s) as [r|s'] eqn:Ew; cbn [fst]; [|discriminate].
+      intros ->. apply sel_wait_raise in Ew. destruct Ew as (j & Hj & <- & _). apply Hl. exact Hj.
+    - rewrite sel_loop_step by exact En.
+      pose proof (sel_step_inv beh sml leafless s Hi) as Hi1.
+      pose proof (sel_step_leaves s Hl) as Hl1.
+      destruct (sel_wait fuel W n (fst (sel_step beh sml leafless s)) (snd (sel_step beh sml leafless s)))
+        as [r|s'] eqn:Ew.
+      + cbn [fst]. intros ->. apply sel_wait_raise in Ew. destruct Ew as (j & Hj & <- & _). apply Hl1. exact Hj.
+      + destruct Hi1 as [Hp1 Hincl1]. apply sel_wait_inr in Ew; [|exact Hp1].
+        destruct Ew as (Hi' & Hst & _ & _ & _ & Hsub). apply IH.
+        * split; [exact Hi'|]. rewrite Hst. exact Hincl1.
+        * intros j Hj. apply Hl1. apply Hsub. exact Hj.
+  Qed.
+End Raise.
+
+Lemma loop_inv_init beh sml : loop_inv beh sml sel_init.
+Proof. split; [apply pool_inv_init | intros p []]. Qed.
+
+(* ---- the full statement of the scheduler (Props/C14.v: c14_selection_scheduler) *)
+Theorem selection_scheduler : forall (W : world) (n : nat) (behemoths smaller leafless : list nat),
+  (1 <= n)%nat -> NoDup (behemoths ++ smaller) ->
+  let parents := behemoths ++ smaller in
+  let r := run_selection_pool W n behemoths smaller leafless in
+  fst r <> PHang /\
+  (fst r = POk ->
+     Permutation (ss_started (snd r)) parents /\ Permutation (ss_completed (snd r)) parents /\
+     ss_running (snd r) = [] /\
+     forall p, In p parents -> mem p leafless = false -> code W p = 0%Z) /\
+  (forall w c, fst r = PRaised w c ->
+     In w parents /\ mem w leafless = false /\ c = code W w /\ c <> 0%Z) /\
+  ((exists p, In p parents /\ mem p leafless = false /\ code W p <> 0%Z) ->
+     exists w c, fst r = PRaised w c).
+Proof.
+  intros W n beh sml leafless Hn Hnd parents r.
+  pose proof (loop_inv_init beh sml) as Hi0.
+  assert (Hnh : fst r <> PHang).
+  { subst r. unfold run_selection_pool, pool_fuel.
+    apply (sel_loop_no_hang W n beh sml leafless Hnd Hn).
+    - intros p Hp. apply list_max_ge. apply in_map. apply in_seq.
+      pose proof (list_max_ge p (beh ++ sml) Hp). lia.
+    - exact Hi0.
+    - unfold mu. cbn. lia. }
+  pose proof (sel_loop_inv_all W n beh sml leafless
+                (pool_fuel W (S (list_max (beh ++ sml)))) (S (2 * (length beh + length sml))) sel_init Hi0)
+    as Hall.
+  change (loop_inv beh sml (snd r) /\
+          (fst r = POk -> (length beh + length sml <= length (ss_started (snd r)))%nat /\
+                          ss_running (snd r) = [])) in Hall.
+  destruct Hall as (Hinv & Hok).
+  destruct (selection_pool_verdict W n beh sml leafless) as (Hsafe & Hraise). fold r in Hsafe, Hraise.
+  assert (Hok' : fst r = POk ->
+     Permutation (ss_started (snd r)) parents /\ Permutation (ss_completed (snd r)) parents /\
+     ss_running (snd r) = [] /\
+     forall p, In p parents -> mem p leafless = false -> code W p = 0%Z).
+  { intros E. destruct (Hok E) as (Hlen & Hrun).
+    destruct Hinv as [(Hs & Hc & Hr & Hd & Hsub & Hck) Hincl].
+    assert (Hps : Permutation (ss_started (snd r)) parents).
+    { apply NoDup_Permutation_bis; [exact Hs | | exact Hincl].
+      unfold parents. rewrite app_length. exact Hlen. }
+    split; [exact Hps|]. split; [|split; [exact Hrun|]].
+    - transitivity (ss_started (snd r)); [|exact Hps].
+      apply NoDup_Permutation; [exact Hc | exact Hs|]. intros p. split; [apply Hsub|].
+      intros Hp. destruct (in_dec Nat.eq_dec p (ss_completed (snd r))) as [Hi|Hi]; [exact Hi|].
+      exfalso. assert (H : In p (map fst (ss_running (snd r)))) by (apply Hd; tauto).
+      rewrite Hrun in H. destruct H.
+    - intros p Hp Hl. apply (Hsafe E); [|exact Hl].
+      apply (Permutation_in p (Permutation_sym Hps)). exact Hp. }
+  split; [exact Hnh|]. split; [exact Hok'|]. split.
+  - intros w c E. destruct (Hraise w c E) as (Hw & Hc & Hnz).
+    split; [apply Hinv; exact Hw|]. split; [|split; assumption].
+    subst r. unfold run_selection_pool in E.
+    eapply (sel_loop_raise_leaves W n beh sml leafless); [exact Hi0 | intros j [] | exact E].
+  - intros (p & Hp & Hl & Hc). destruct (fst r) as [|w c|] eqn:E.
+    + exfalso. apply Hc. apply Hok'; auto.
+    + exists w, c. reflexivity.
+    + contradiction.
+Qed.
+
+(* the same for the parents 0..k-1 split in any way into behemoths and smaller *)
+Corollary selection_scheduler_partition : forall (W : world) (n k : nat) (behemoths smaller leafless : list nat),
+  (1 <= n)%nat -> Permutation (behemoths ++ smaller) (seq 0 k) ->
+  let r := run_selection_pool W n behemoths smaller leafless in
+  fst r <> PHang /\
+  (fst r = POk ->
+     Permutation (ss_started (snd r)) (seq 0 k) /\ Permutation (ss_completed (snd r)) (seq 0 k) /\
+     ss_running (snd r) = [] /\
+     forall p, (p < k)%nat -> mem p leafless = false -> code W p = 0%Z) /\
+  (forall w c, fst r = PRaised w c ->
+     (w < k)%nat /\ mem w leafless = false /\ c = code W w /\ c <> 0%Z) /\
+  ((exists p, (p < k)%nat /\ mem p leafless = false /\ code W p <> 0%Z) ->
+     exists w c, fst r = PRaised w c).
+Proof.
+  intros W n k beh sml leafless Hn Hperm r.
+  assert (Hnd : NoDup (beh ++ sml)).
+  { apply (Permutation_NoDup (Permutation_sym Hperm)). apply seq_NoDup. }
+  assert (Hin : forall p, In p (beh ++ sml) <-> (p < k)%nat).
+  { intros p. split.
+    - intros H. apply (Permutation_in p Hperm) in H. apply in_seq in H. lia.
+    - intros H. apply (Permutation_in p (Permutation_sym Hperm)). apply in_seq. lia. }
+  destruct (selection_scheduler W n beh sml leafless Hn Hnd) as (H1 & H2 & H3 & H4). fold r in H1, H2, H3, H4.
+  split; [exact H1|]. split; [|split].
+  - intros E. destruct (H2 E) as (A & B & C & D).
+    split; [rewrite A; exact Hperm|]. split; [rewrite B; exact Hperm|]. split; [exact C|].
+    intros p Hp. apply D. apply Hin. exact Hp.
+  - intros w c E. destruct (H3 w c E) as (A & B). split; [apply Hin; exact A | exact B].
+  - intros (p & Hp & Hl & Hc). apply H4. exists p. split; [apply Hin; exact Hp | auto].
+Qed.
+
+(* ---- the limits the scheduler is there to enforce: at most n processes, at most one
+   behemoth among them -- at every state the loop can hand back *)
+Section Limits.
+  Variable W : world.
+  Variable n : nat.
+  Variables beh sml leafless : list nat.
+  Hypothesis Hnd : NoDup (beh ++ sml).
+  Hypothesis Hn : (1 <= n)%nat.
+
+  Definition one_behemoth (s : sel_state) : Prop :=
+    forall b1 b2, In b1 beh -> In b2 beh ->
+      In b1 (map fst (ss_running s)) -> In b2 (map fst (ss_running s)) -> b1 = b2.
+
+  Lemma choose_some_branch s p : choose_parent beh sml s = Some p ->
+    (In p beh /\ behemoth_running beh s = false) \/ In p sml.
+  Proof.
+    unfold choose_parent, first_unstarted. intros H.
+    destruct (behemoth_running beh s) eqn:Eb.
+    - right. apply find_some in H. tauto.
+    - destruct (find (fun p => negb (mem p (ss_started s))) beh) as [q|] eqn:Ef.
+      + inversion H; subst q. left. apply find_some in Ef. tauto.
+      + right. apply find_some in H. tauto.
+  Qed.
+
+  Lemma no_behemoth_running s b : pool_inv s -> behemoth_running beh s = false ->
+    In b beh -> ~ In b (map fst (ss_running s)).
+  Proof.
+    intros (Hs & Hc & Hr & Hd & Hsub & Hck) Eb Hb Hin. apply Hd in Hin. destruct Hin as [H1 H2].
+    rewrite <- not_true_iff_false in Eb. apply Eb. unfold behemoth_running.
+    apply existsb_exists. exists b. split; [exact Hb|].
+    apply andb_true_iff. split; [apply mem_in; exact H1 | apply negb_true_iff, mem_not_in; exact H2].
+  Qed.
+
+  Lemma step_limits s : loop_inv beh sml s -> (length (ss_running s) < n)%nat -> one_behemoth s ->
+    (length (ss_running (snd (sel_step beh sml leafless s))) <= n)%nat /\
+    one_behemoth (snd (sel_step beh sml leafless s)).
+  Proof.
+    intros [Hi Hincl] Hlen Hone. unfold sel_step.
+    destruct (choose_parent beh sml s) as [p|] eqn:Ec; cbn [snd]; [|split; [lia | exact Hone]].
+    unfold start_state. destruct (mem p leafless); cbn [ss_running]; [split; [lia | exact Hone]|].
+    split; [rewrite app_length; cbn; lia|].
+    apply choose_some_branch in Ec.
+    intros b1 b2 Hb1 Hb2. cbn [ss_running]. rewrite map_app, !in_app_iff. cbn [map fst In].
+    destruct Ec as [[Hpb Eb]|Hps].
+    - pose proof (no_behemoth_running s b1 Hi Eb Hb1). pose proof (no_behemoth_running s b2 Hi Eb Hb2).
+      intros [H1|[H1|[]]] [H2|[H2|[]]]; try contradiction. congruence.
+    - assert (Hnb : ~ In p beh).
+      { intros Hpb. apply NoDup_app_inv in Hnd. destruct Hnd as (_ & _ & Hdis). exact (Hdis p Hpb Hps). }
+      intros [H1|[H1|[]]] [H2|[H2|[]]]; try (subst; contradiction). apply Hone; assumption.
+  Qed.
+
+  Lemma one_behemoth_sub s s' : (forall j, In j (ss_running s') -> In j (ss_running s)) ->
+    one_behemoth s -> one_behemoth s'.
+  Proof.
+    intros Hsub Hone b1 b2 Hb1 Hb2 H1 H2. apply Hone; try assumption.
+    - apply in_map_iff in H1. destruct H1 as (j & <- & Hj). apply in_map. apply Hsub. exact Hj.
+    - apply in_map_iff in H2. destruct H2 as (j & <- & Hj). apply in_map. apply Hsub. exact Hj.
+  Qed.
+
+  Lemma sel_loop_limits fuel : forall outer s,
+    loop_inv beh sml s -> (length (ss_running s) < n)%nat -> one_behemoth s ->
+    let r := sel_loop outer fuel W n (length beh + length sml) beh sml leafless s in
+    (length (ss_running (snd r)) <= n)%nat /\ one_behemoth (snd r).
+  Proof.
+    assert (Hdrain : forall s, loop_inv beh sml s -> (length (ss_running s) < n)%nat -> one_behemoth s ->
+              (length (ss_running (snd (drain W fuel s))) <= n)%nat /\ one_behemoth (snd (drain W fuel s))).
+    { intros s [Hi Hincl] Hlen Hone. unfold drain.
+      destruct (sel_wait fuel W 1 true s) as [r|s'] eqn:Ew; cbn [snd]; [split; [lia | exact Hone]|].
+      apply sel_wait_inr in Ew; [|exact Hi]. destruct Ew as (_ & _ & Hle & _ & _ & Hsub).
+      split; [lia | exact (one_behemoth_sub s s' Hsub Hone)]. }
+    induction outer as [|o IH]; intros s Hi Hlen Hone;
+      destruct (length beh + length sml <=? length (ss_started s))%nat eqn:En.
+    - rewrite sel_loop_done by exact En. apply Hdrain; assumption.
+    - rewrite sel_loop_out_of_fuel by exact En. cbn. split; [lia | exact Hone].
+    - rewrite sel_loop_done by exact En. apply Hdrain; assumption.
+    - rewrite sel_loop_step by exact En.
+      pose proof (sel_step_inv beh sml leafless s Hi) as Hi1.
+      destruct (step_limits s Hi Hlen Hone) as [Hlen1 Hone1].
+      destruct (sel_wait fuel W n (fst (sel_step beh sml leafless s)) (snd (sel_step beh sml leafless s)))
+        as [r|s'] eqn:Ew; [cbn [snd]; split; assumption|].
+      destruct Hi1 as [Hp1 Hincl1]. apply sel_wait_inr in Ew; [|exact Hp1].
+      destruct Ew as (Hi' & Hst & _ & _ & Hlt & Hsub). apply IH.
+      + split; [exact Hi'|]. rewrite Hst. exact Hincl1.
+      + exact Hlt.
+      + exact (one_behemoth_sub _ s' Hsub Hone1).
+  Qed.
+End Limits.
+
+(* ---- the pool invariant as a theorem about every state the loop can hand back: stop the
+   outer loop after any number `outer` of iterations (the state at that loop head comes back
+   with PHang), give the inner loops any fuel (a starved inner loop hands back the state
+   right after the start) *)
+Theorem pool_invariant : forall (W : world) (n : nat) (behemoths smaller leafless : list nat) (outer fuel : nat),
+  let s := snd (sel_loop outer fuel W n (length behemoths + length smaller) behemoths smaller leafless sel_init) in
+  pool_inv s /\ (forall p, In p (ss_started s) -> In p (behemoths ++ smaller)).
+Proof.
+  intros W n beh sml leafless outer fuel.
+  exact (proj1 (sel_loop_inv_all W n beh sml leafless fuel outer sel_init (loop_inv_init beh sml))).
+Qed.
+
+Theorem scheduler_limits : forall (W : world) (n : nat) (behemoths smaller leafless : list nat) (outer fuel : nat),
+  (1 <= n)%nat -> NoDup (behemoths ++ smaller) ->
+  let s := snd (sel_loop outer fuel W n (length behemoths + length smaller) behemoths smaller leafless sel_init) in
+  (length (ss_running s) <= n)%nat /\
+  (forall b1 b2, In b1 behemoths -> In b2 behemoths ->
+     In b1 (map fst (ss_running s)) -> In b2 (map fst (ss_running s)) -> b1 = b2).
+Proof.
+  intros W n beh sml leafless outer fuel Hn Hnd.
+  apply (sel_loop_limits W n beh sml leafless Hnd Hn fuel outer sel_init (loop_inv_init beh sml)).
+  - cbn. lia.
+  - intros b1 b2 _ _ [].
+Qed.
+
+(* without the hypothesis NoDup the loop does hang: a parent listed twice can be started only
+   once, so len(started_parents) never reaches len(parent_list) *)
+Lemma duplicate_parent_hangs :
+  fst (run_selection_pool {| code := fun _ => 0%Z; dur := fun _ => 1%nat |} 2 [] [0; 0]%nat []) = PHang.
+Proof. vm_compute. reflexivity. Qed.
+
+(* C04: when no worker fails, every schedule (world, bound) ends cleanly with the same set of
+   parents started and completed -- output_dict has an entry for exactly the parents of
+   parent_list, whatever the completion order *)
+Theorem selection_schedule_independent :
+  forall (W1 W2 : world) (n1 n2 : nat) (behemoths smaller leafless : list nat),
+  (1 <= n1)%nat -> (1 <= n2)%nat -> NoDup (behemoths ++ smaller) ->
+  (forall p, In p (behemoths ++ smaller) -> mem p leafless = false -> code W1 p = 0%Z) ->
+  (forall p, In p (behemoths ++ smaller) -> mem p leafless = false -> code W2 p = 0%Z) ->
+  let r1 := run_selection_pool W1 n1 behemoths smaller leafless in
+  let r2 := run_selection_pool W2 n2 behemoths smaller leafless in
+  fst r1 = POk /\ fst r2 = POk /\
+  Permutation (ss_completed (snd r1)) (behemoths ++ smaller) /\
+  Permutation (ss_completed (snd r1)) (ss_completed (snd r2)).
+Proof.
+  intros W1 W2 n1 n2 beh sml leafless Hn1 Hn2 Hnd Hc1 Hc2 r1 r2.
+  assert (Hclean : forall W n, (1 <= n)%nat ->
+            (forall p, In p (beh ++ sml) -> mem p leafless = false -> code W p = 0%Z) ->
+            fst (run_selection_pool W n beh sml leafless) = POk).
+  { intros W n Hn Hc. destruct (selection_scheduler W n beh sml leafless Hn Hnd) as (H1 & _ & H3 & _).
+    destruct (fst (run_selection_pool W n beh sml leafless)) as [|w c|] eqn:E; [reflexivity | | contradiction].
+    exfalso. destruct (H3 w c eq_refl) as (Hw & Hl & Hcw & Hnz). apply Hnz. rewrite Hcw. apply Hc; assumption. }
+  pose proof (Hclean W1 n1 Hn1 Hc1) as E1. pose proof (Hclean W2 n2 Hn2 Hc2) as E2.
+  destruct (selection_scheduler W1 n1 beh sml leafless Hn1 Hnd) as (_ & A1 & _).
+  destruct (selection_scheduler W2 n2 beh sml leafless Hn2 Hnd) as (_ & A2 & _).
+  destruct (A1 E1) as (_ & B1 & _). destruct (A2 E2) as (_ & B2 & _).
+  split; [exact E1|]. split; [exact E2|]. split; [exact B1|].
+  eapply Permutation_trans; [exact B1 | apply Permutation_sym; exact B2].
+Qed.
